@@ -9,6 +9,8 @@ and none from before the update preceding its left edge), with three mutants tha
 latency.Latency is then driven with a stubbed clock and every export validated by LatencyTrace.tla, which states
 Bounded over the recorded samples only (it does not replay the implementation's slots).
 Stage 3: concurrent-refresh clause (conc_stage).
+Stage 4: latency clause at cache level (cache lat driver, CacheLatTrace.tla): what the cache feeds into its latency
+windows - only the target's own post-sync updates - judged on the latency leaves it exports after each refresh.
 """
 import json
 import os
@@ -25,6 +27,11 @@ LAT_RULE = ("latency clause: %d scenarios on the real latency.Latency with a stu
             "10-50 calls mixing Compute (latencies around a scenario base, with zero, negative (device clock ahead) and outlier values, at clock advances of "
             "0, 1 ns, 1/4 and 1/2 period) and UpdateReset/UpdateLast at regular or irregular advances (0 .. 5 periods); TLC validates every exported "
             "avg/max/min against the extremes of the samples recorded since the update that precedes the window's left edge (LatencyTrace.tla)")
+CLAT_RULE = ("latency clause at cache level: %d scenarios on a real cache.Cache created with latency windows 2s/4s/6s (refresh period 2 s), manual clock behind "
+             "cache.Now/latency.Now, 20-80 calls mixing target updates whose timestamps lie a chosen latency (a band of the scenario, 0.2-7 s) behind the clock, "
+             "Sync/Connect/Reset, clock advances and the periodic UpdateMetadata (+UpdateSize); after every refresh the exported meta/latency/window/<w>/{avg,max,min} "
+             "leaves are read back and TLC (CacheLatTrace.tla) requires each to lie between the smallest and largest latency of the target's own updates accepted "
+             "while in sync, and nothing to be exported before there is one")
 
 
 def run(tier):
@@ -44,7 +51,14 @@ def run(tier):
                        boundary=("cfg",), count_keys=("scenarios",), sig=lambda r: "latency %s" % r.event.get("ev"),
                        trivial=lambda l: b'"ev":"cfg"' in l, merge=True, stage="-lat")
     rc3 = conc_stage(tier)
-    return max(rc1, rc2, rc3)
+    cn = 300 if tier == "quick" else 12000
+    rc4 = p_simple.run(PID, tier, [], [["cache", "lat", "-n", str(cn), "-shards", "8" if tier == "quick" else "32"]],
+                       "CacheLatTrace.tla", CLAT_RULE % cn,
+                       ["cache-level latency clause: the bound is over all samples of the scenario so far, not per window (the window arithmetic is decided on "
+                        "latency.Latency by the latency stage); an accepted update while in sync is a possible sample whether or not the implementation records it"],
+                       boundary=("latcfg",), count_keys=("scenarios",), sig=lambda r: "cache latency %s" % r.event.get("ev"),
+                       trivial=lambda l: b'"ev":"latcfg"' in l or b'"exports":[]' in l, merge=True, stage="-clat", crash_pkg="cache")
+    return max(rc1, rc2, rc3, rc4)
 
 
 def conc_stage(tier):
